@@ -148,7 +148,7 @@ def run(m, chk):
         "is a bare node parameter), dependence of the committed points / weights on nodes, old knot vector, old points and old weights. "
         "That the matrix is Boehm's (function preservation) and the multiset union of knots are not decided."
     )
-    chk.decides = ["MEMO-KEY (no function on the path is memoised by the value of numbers / knot vectors)", "V1", "X-ASSERT", "COMMIT-LAST", "NO-INPLACE-ELEM", "D", "DEP-MAY of committed state", 'PRECHECK (zero-test of new weights before the commit)', 'MULT-KEEP (inserted nodes keep their multiplicity)']
+    chk.decides = ["DEHOMOG-PAIR (points divided by a list of weights are stored with exactly those weights)", "MEMO-KEY (no function on the path is memoised by the value of numbers / knot vectors)", "V1", "X-ASSERT", "COMMIT-LAST", "NO-INPLACE-ELEM", "D", "DEP-MAY of committed state", 'PRECHECK (zero-test of new weights before the commit)', 'MULT-KEEP (inserted nodes keep their multiplicity)']
     chk.not_decided = ["function preservation (the insertion matrix is Boehm's)", "new knot vector = sorted multiset union"]
     chk.assume("a setter's validation of an already computed value of the right length is not modelled as a failure point")
     c03.v1(r, chk)
@@ -176,3 +176,6 @@ def run(m, chk):
 
     nm = memo_key(r, chk, entries=['curves.Curve.knot_insert'])
     chk.floor("MEMO-KEY", "functions reachable from the entry points examined for value-keyed memoisation", nm, 3)
+    from .extra import dehomog_pair
+
+    dehomog_pair(r, chk, ["curves.BaseCurve.apply"], floor=1)
